@@ -62,7 +62,13 @@ MANIFEST = {
              "fromPortable(toPortable(d, vars)) succeeds and returns the same description, flags, context keys, names, kinds, log status, descriptions, "
              "dynamic and steady equations and EXACTLY the same levels and changes of every variant; it forgets only attributes None (-> empty set), "
              "the tolerances/default std and context values, which the format does not carry; PortableWF is evaluated by the driver on every "
-             "generated real model (portableWFb, proved sound). The model is tied to the code on "
+             "generated real model (portableWFb, proved sound); the same through JSON for the code as it is (levels survive, steady changes are reset: "
+             "portable_json_roundtrip); flag resolution as total functions (from_kwargs with the is_ aliases, update_from_kwargs: an explicit value "
+             "wins, also False over True; every flag combination survives the portable) proved on all inputs and compared exhaustively (953 lines); "
+             "alter_num_variants adding k variants creates k pairwise distinct fresh objects; the per-Solution expansion memo as a state machine "
+             "over an original, its copies and re-solved objects: after ANY history of longer/shorter horizon requests, copies and re-solves every "
+             "answer equals that of a brand-new solution of the same version (memo invariant: entry k carries stamp k), compared with the real "
+             "square/triangular expansion lists bitwise. The model is tied to the code on "
              "every run by exact correspondence after every operation of random histories (aliasing structure by object identity and all stored "
              "values as exact rationals) and by independent oracles on the real heap (gc object-graph walk for disjointness, mutate-one-observe-"
              "the-other, copy/pickle behavioural equivalence incl. simulation and Kalman filter, variant-vs-singleton bit equality, portable round trip)."),
